@@ -237,8 +237,9 @@ class Sample:
                 return off + pos, f"{self.gene[off + pos]}>{alt[off]}"
             elif len(ref) > len(alt) and len(alt) - off == 0:
                 return off + pos, f"del{self.gene[off + pos : pos + len(ref)]}"
-            elif len(ref) < len(alt) and len(ref) - off == 0:
-                return off + pos, f"ins{alt[off:]}"
+            elif len(ref) < len(alt) and len(ref) - off == 0 and off > 0:
+                # database insertions are keyed at the base they follow
+                return off + pos - 1, f"ins{alt[off:]}"
             else:
                 log.trace(f"[sam] ignoring {pos}: {ref}->{alt}")
                 return pos, None
@@ -270,6 +271,13 @@ class Sample:
                 for gt in g:
                     pos, op = hgvs[gt]
                     if op is None or op == "_":
+                        continue
+                    if op.startswith("ins"):
+                        # insertions do not consume the reference: their support
+                        # lives in the indel table as (reads without, reads with)
+                        if (pos, op) in self._indel_sites:
+                            on = self._indel_sites[pos, op][1] + 10
+                            self._indel_sites[pos, op] = [20 - on, on]
                         continue
                     muts[pos, op] += [(40, 40)] * 10
                     norm[pos] = norm[pos][:-10]
